@@ -1,26 +1,27 @@
 (* C14 - duplicate and replace produce faithful, independent copies.
    ONLY statements; proofs are `exact <lemma of Proofs/RegistryProofs.v>`.  For every digest H.
    `dup`, `dc_replace` (dataclasses.replace) and `replace` (ASTNode.replace) are the functions of
-   Model/Registry.v that `step` runs for the operations Dup, DcReplace, Replace. *)
+   Model/Registry.v that `step` runs for the operations Dup, DcReplace, Replace; `late` is any validation a subclass
+   performs after super().__post_init__() (DOk = the call returned; DLate = a copy was rejected on the way). *)
 From Oak Require Import Model.Registry Proofs.RegistryProofs.
 
 (* ---- duplicate: every node of the copy is a new object registered under its own id ... ---- *)
-Theorem C14_dup_fresh : forall H ct fuel s a s' a', Inv0 s -> dup H ct fuel s a = Some (s', a') ->
+Theorem C14_dup_fresh : forall H ct late fuel s a s' a', Inv0 s -> dup H ct late fuel s a = DOk s' a' ->
   forall x, In x (tree_of s' a') ->
     length (heap s) <= x /\ exists c, cell_at s' x = Some c /\ get_any s' (k_id c) = Some x.
 Proof. exact dup_fresh. Qed.
 (* ... whose id is the id of no node registered when duplicate was called (in particular of no node of the original) *)
-Theorem C14_dup_ids_disjoint : forall H ct fuel s a s' a', Inv0 s -> dup H ct fuel s a = Some (s', a') ->
+Theorem C14_dup_ids_disjoint : forall H ct late fuel s a s' a', Inv0 s -> dup H ct late fuel s a = DOk s' a' ->
   forall x c, In x (tree_of s' a') -> cell_at s' x = Some c -> get_any s (k_id c) = None.
 Proof. exact dup_ids_disjoint. Qed.
 (* duplicate terminates: the fuel `step` gives it is never exhausted *)
-Theorem C14_dup_total : forall H ct s a, Inv0 s -> a < length (heap s) -> dup H ct (length (heap s)) s a <> None.
+Theorem C14_dup_total : forall H ct late s a, Inv0 s -> a < length (heap s) -> dup H ct late (length (heap s)) s a <> DFuel.
 Proof. exact dup_never_out_of_fuel. Qed.
 (* the registry and the heap only grow during duplicate: the original's nodes and registrations are untouched *)
-Theorem C14_dup_grows : forall H ct fuel s a s' a', Inv0 s -> dup H ct fuel s a = Some (s', a') ->
+Theorem C14_dup_grows : forall H ct late fuel s a s' a', Inv0 s -> dup H ct late fuel s a = DOk s' a' ->
   Inv0 s' /\ growR s s' /\ length (heap s) <= a' < length (heap s').
 Proof. exact dup_spec. Qed.
-Example C14_ex_dup : exists s' a', dup ex_H ex_ct (length (heap ex_state)) ex_state 2 = Some (s', a')
+Example C14_ex_dup : exists s' a', dup ex_H ex_ct no_late (length (heap ex_state)) ex_state 2 = DOk s' a'
   /\ tree_of s' a' = [5; 3; 4] /\ tree_of ex_state 2 = [2; 0; 1].
 Proof. eexists _, _. split; [vm_compute; reflexivity|split; vm_compute; reflexivity]. Qed.
 (* C14_dup_eq (the copy is == to the original with equal content_id, properties and origins at every position) is
@@ -29,8 +30,8 @@ Proof. eexists _, _. split; [vm_compute; reflexivity|split; vm_compute; reflexiv
 
 (* ---- replace (both kinds): same class; changed fields hold the given values, every other field holds what
         the original holds - children by address, i.e. the very same objects ---- *)
-Theorem C14_replace_fields : forall H ct s a ch s' a' c,
-  cell_at s a = Some c -> dc_replace H ct s a ch = (s', OkNode a') ->
+Theorem C14_replace_fields : forall H ct late s a ch s' a' c,
+  cell_at s a = Some c -> dc_replace H ct late s a ch = (s', OkNode a') ->
   exists c', cell_at s' a' = Some c' /\ a' = length (heap s) /\ k_cls c' = k_cls c /\
     k_org c' = (match assoc (lit "origin") ch with Some (VOrigin o) => o | _ => k_org c end) /\
     (forall n, assoc n (k_props c') =
@@ -40,33 +41,33 @@ Theorem C14_replace_fields : forall H ct s a ch s' a' c,
 Proof. exact dc_replace_fields. Qed.
 (* ASTNode.replace is: unregister the original if it is registered, then exactly the construction
    dataclasses.replace performs - so the new node gets the id a fresh construction with the original absent gets *)
-Theorem C14_replace_id_as_fresh : forall H ct s a ch s' a',
-  replace H ct true s a ch = (s', OkNode a') ->
-  dc_replace H ct (fst (detach_self true s a)) a ch = (s', OkNode a').
+Theorem C14_replace_id_as_fresh : forall H ct late s a ch s' a',
+  replace H ct late true s a ch = (s', OkNode a') ->
+  dc_replace H ct late (fst (detach_self true s a)) a ch = (s', OkNode a').
 Proof. exact replace_is_fresh_construction. Qed.
-Theorem C14_replace_unregisters : forall H ct s a ch s' a' c,
+Theorem C14_replace_unregisters : forall H ct late s a ch s' a' c,
   Inv0 s -> changes_below (length (heap s)) ch -> cell_at s a = Some c ->
-  replace H ct true s a ch = (s', OkNode a') ->
+  replace H ct late true s a ch = (s', OkNode a') ->
   In a (det s') /\ get_any s' (k_id c) <> Some a.
 Proof. exact replace_unregisters. Qed.
 (* the original's id is kept when the original is registered (so no twin holds the id) and the new content hashes
    to the id the original carries (only non-comparable fields changed) *)
-Theorem C14_replace_keeps_id : forall H ct s a ch s' a' c,
+Theorem C14_replace_keeps_id : forall H ct late s a ch s' a' c,
   cell_at s a = Some c -> get_any s (k_id c) = Some a ->
-  replace H ct true s a ch = (s', OkNode a') ->
+  replace H ct late true s a ch = (s', OkNode a') ->
   k_id c = H (id_data_of ct current (k_cls c) (new_origin c ch) (new_props c ch) (kd_of (heap s) (new_kids c ch))) ->
   exists c', cell_at s' a' = Some c' /\ k_id c' = k_id c.
 Proof. exact replace_keeps_id. Qed.
 (* dataclasses.replace leaves a registered original registered and yields a different id *)
-Theorem C14_dc_replace_keeps_orig_registered : forall H ct s a ch s' a' c,
+Theorem C14_dc_replace_keeps_orig_registered : forall H ct late s a ch s' a' c,
   cell_at s a = Some c -> get_any s (k_id c) = Some a ->
-  dc_replace H ct s a ch = (s', OkNode a') ->
+  dc_replace H ct late s a ch = (s', OkNode a') ->
   get_any s' (k_id c) = Some a /\
   exists c', cell_at s' a' = Some c' /\ k_id c' <> k_id c /\ get_any s' (k_id c') = Some a'.
 Proof. exact dc_replace_keeps_orig. Qed.
 Example C14_ex_replace :
   (* node 2 (class B, id "n", registered): replacing its non-comparable ... it has none; replacing nothing keeps the id *)
-  exists s' a' c', replace ex_H ex_ct true ex_state 2 [] = (s', OkNode a') /\ cell_at s' a' = Some c'
+  exists s' a' c', replace ex_H ex_ct no_late true ex_state 2 [] = (s', OkNode a') /\ cell_at s' a' = Some c'
     /\ k_id c' = lit "n" /\ get_any ex_state (lit "n") = Some 2 /\ get_any s' (lit "n") = Some a' /\ a' = 3
     /\ changes_below (length (heap ex_state)) [] /\ Inv0 ex_state.
 Proof.
@@ -75,6 +76,6 @@ Proof.
   split; [vm_compute; reflexivity|]. split; [intros n sh l []|exact (proj1 ex_state_inv)].
 Qed.
 Example C14_ex_dc_replace :
-  exists s' a', dc_replace ex_H ex_ct ex_state 1 [(lit "note", VProp (VStr (lit "m")))] = (s', OkNode a')
+  exists s' a', dc_replace ex_H ex_ct no_late ex_state 1 [(lit "note", VProp (VStr (lit "m")))] = (s', OkNode a')
     /\ get_any ex_state (lit ")_1") = Some 1 /\ get_any s' (lit ")_1") = Some 1.
 Proof. eexists _, _. split; [vm_compute; reflexivity|split; vm_compute; reflexivity]. Qed.
